@@ -200,8 +200,39 @@ def lossy_steps(facts, body, flow, start_locals, upto_block=None):
     return out
 
 
+def check_D1_tasks(ctx, facts, rule):
+    # (5)/(6) the tasks build only their own message kinds from the list
+    for task, allowed, plist_name in (('handle_removals', {'Del', 'MultiDel'}, 'removed'), ('handle_modified', {'MultiSet', 'Set'}, 'modified')):
+        fn = facts.body(P + task)
+        if fn is None:
+            ctx.bad(rule, 'hop5|' + task, '', task + ' not found')
+            continue
+        pn = fn.local_names()
+        plist = [k for k, v in pn.items() if v == plist_name and k <= fn.argc]
+        built = set()
+        fetch = False
+        uses_list = False
+        for body, ls in (nested_param_locals(facts, fn, plist[0]) if plist else []):
+            for _b, _j, s in body.assigns():
+                rv = s['rv']
+                if rv['k'] == 'aggregate' and rv.get('agg') == 'adt' and strip_generics(rv['adt']).startswith(MSG):
+                    built.add(last_seg(rv['adt']))
+                    if any(op_local(o) in Flow(body, all_calls=True).forward(list(ls), stop=[0]) for o in rv['ops']):
+                        uses_list = True
+            for bb, t in body.calls():
+                if cname(t) == EC + 'rpc::client::ReplicationClient::fetch_docs':
+                    fetch = True
+                    if any(op_local(a) in Flow(body, all_calls=True).forward(list(ls), stop=[0]) for a in t['args']):
+                        uses_list = True
+        good = bool(built) and built <= allowed and uses_list and (fetch if task == 'handle_modified' else not fetch)
+        ctx.ob(rule, 'hop5|' + task, good, site(fn),
+               '%s turns its list into %s%s only' % (task, '/'.join(sorted(built)), ' after fetch_docs' if fetch else '') if good else
+               '%s builds %s (allowed %s), fetches documents: %s, uses its list: %s' % (task, sorted(built), sorted(allowed), fetch, uses_list))
+
+
 def check_D1(ctx, facts, rule='C05.D1'):
     # (1) on_diff returns diff()'s tuple unpermuted
+    hop1_pending = []
     od = [b for b in facts.bodies.values() if b.kind == 'coroutine' and b.name == EC + 'keyspace::actor::KeyspaceActor::on_diff::{closure#0}']
     for b in od:
         dc = [(bb, t) for bb, t in b.calls() if cname(t) == OS + 'diff']
@@ -230,9 +261,9 @@ def check_D1(ctx, facts, rule='C05.D1'):
                     good = True
             elif ret:
                 why = 'on_diff returns the two lists of diff() in each other\'s position'
-        ctx.ob(rule, 'hop1|on_diff', good, site(b), 'on_diff returns diff()\'s pair, positions kept, lists untouched' if good else why)
+        hop1_pending.append((good, site(b), why))
     if not od:
-        ctx.bad(rule, 'hop1|on_diff', '', 'on_diff not found')
+        hop1_pending.append((False, '', 'on_diff not found'))
     # (2) get_keyspace_diff: .0 -> modified, .1 -> removed
     kd = facts.adts.get(P + 'KeyspaceDiff')
     gk = [b for b in facts.bodies.values() if b.kind == 'coroutine' and b.name.startswith(P + 'get_keyspace_diff::{closure#0}')
@@ -243,6 +274,10 @@ def check_D1(ctx, facts, rule='C05.D1'):
     # stamp, in its own list, and removals are sent as deletes with exactly those stamps under the read-repair source; subsumes hop2
     import repair_abs
     hop_sem = repair_abs.check_repair(ctx, facts, rule + '.SEM' if not rule.endswith('.SEM') else rule)
+    # (hop1 is part of that summary when the actor's `Diff` handler was interpreted inside it: the reply IS what on_diff makes of diff())
+    if not (hop_sem and getattr(ctx, 'on_diff_interpreted', False)):
+        for good_, site_, why_ in hop1_pending:
+            ctx.ob(rule, 'hop1|on_diff', good_, site_, 'on_diff returns diff()\'s pair, positions kept, lists untouched' if good_ else why_)
     for b in ([] if hop_sem else gk):
         flow = Flow(b)
         sends = [(bb, t) for bb, t in b.calls() if cname(t) == 'puppet::ActorMailbox::send' and 'Diff' in ' '.join(t.get('gargs') or [])]
@@ -306,6 +341,17 @@ def check_D1(ctx, facts, rule='C05.D1'):
                 return None
             full = None
             for i, a in enumerate(t['args']):
+                # both lists travelling together in one private struct with fields called modified / removed: which is which is then decided
+                # by name inside begin_keyspace_sync (routing summary below)
+                cands_ = [op_place(a)]
+                if op_local(a) is not None:
+                    back_ = flow.backward([op_local(a)])
+                    cands_ += [op_place(s_['rv']['op']) for _b0, _j0, s_ in b.assigns() if s_['lhs']['l'] in back_ and s_['rv']['k'] == 'use']
+                for pl_ in cands_:
+                    if pl_ and b.local_ty(pl_['l']) == P + 'KeyspaceDiff' and pl_['p'] and isinstance(pl_['p'][-1], dict) and 'ty' in pl_['p'][-1]:
+                        ba = facts.adts.get(ty_head(pl_['p'][-1]['ty']))
+                        if ba is not None and ba['kind'] == 'struct' and {'modified', 'removed'} <= {f['name'] for f in ba['variants'][0]['fields']}:
+                            pos['bundle'] = i + 1
                 f_ = diff_field(op_place(a))
                 if f_ is None and op_local(a) is not None:
                     f_ = field_source(op_local(a))
@@ -353,6 +399,12 @@ def check_D1(ctx, facts, rule='C05.D1'):
                    'an iteration over the listed changes can skip begin_keyspace_sync: that difference (e.g. one that only lists removals) is never applied, '
                    'and if its stamp is recorded as synced it is never retried')
     bks = facts.body(P + 'begin_keyspace_sync')
+    import sync_abs
+    routing_sem = sync_abs.check_supervision(ctx, facts, rule + '.SEM' if not rule.endswith('.SEM') else rule, only_routing=True)
+    if bks is not None and 'bundle' in pos and routing_sem:
+        ctx.ok(rule, 'hop3|repair_members', site(rm[0]) if rm else '', 'the two lists travel together, by name, in one private struct handed to begin_keyspace_sync; which task gets which is decided by the routing summary')
+        check_D1_tasks(ctx, facts, rule)
+        return
     if bks is None or 'removed' not in pos or 'modified' not in pos:
         ctx.bad(rule, 'hop3|repair_members', '', 'cannot see how repair_members hands the two lists to begin_keyspace_sync (fail closed)')
         return
@@ -387,34 +439,7 @@ def check_D1(ctx, facts, rule='C05.D1'):
     ctx.ob(rule, 'hop4|begin_keyspace_sync', good, site(bks),
            'parameter removed -> handle_removals only, parameter modified -> handle_modified only' if good else
            'parameter removed reaches %s, parameter modified reaches %s' % (sorted(reach['removed']), sorted(reach['modified'])))
-    # (5)/(6) the tasks build only their own message kinds from the list
-    for task, allowed, plist_name in (('handle_removals', {'Del', 'MultiDel'}, 'removed'), ('handle_modified', {'MultiSet', 'Set'}, 'modified')):
-        fn = facts.body(P + task)
-        if fn is None:
-            ctx.bad(rule, 'hop5|' + task, '', task + ' not found')
-            continue
-        pn = fn.local_names()
-        plist = [k for k, v in pn.items() if v == plist_name and k <= fn.argc]
-        built = set()
-        fetch = False
-        uses_list = False
-        for body, ls in (nested_param_locals(facts, fn, plist[0]) if plist else []):
-            for _b, _j, s in body.assigns():
-                rv = s['rv']
-                if rv['k'] == 'aggregate' and rv.get('agg') == 'adt' and strip_generics(rv['adt']).startswith(MSG):
-                    built.add(last_seg(rv['adt']))
-                    if any(op_local(o) in Flow(body, all_calls=True).forward(list(ls), stop=[0]) for o in rv['ops']):
-                        uses_list = True
-            for bb, t in body.calls():
-                if cname(t) == EC + 'rpc::client::ReplicationClient::fetch_docs':
-                    fetch = True
-                    if any(op_local(a) in Flow(body, all_calls=True).forward(list(ls), stop=[0]) for a in t['args']):
-                        uses_list = True
-        good = bool(built) and built <= allowed and uses_list and (fetch if task == 'handle_modified' else not fetch)
-        ctx.ob(rule, 'hop5|' + task, good, site(fn),
-               '%s turns its list into %s%s only' % (task, '/'.join(sorted(built)), ' after fetch_docs' if fetch else '') if good else
-               '%s builds %s (allowed %s), fetches documents: %s, uses its list: %s' % (task, sorted(built), sorted(allowed), fetch, uses_list))
-
+    check_D1_tasks(ctx, facts, rule)
 
 def check(ctx):
     facts = ctx.facts('prod')
